@@ -68,19 +68,18 @@ Fixpoint dec_many {A} (d : dec A) (fuel : nat) (count : Z) (bs : bytes) : res (l
            Ok (x :: xs, r')
        end.
 
-(* impl FromByte for Vec<V>: reserve(length) then `length` element decodes.
-   elem_size = size_of::<V>() on the 64-bit target. *)
+(* impl FromByte for Vec<V>: reserve(min(length, 1024)) then `length` element decodes.
+   (elem_size = size_of::<V>() on the 64-bit target; the reservation is at most
+   1024 * elem_size bytes, far below the allocation limit.) *)
 Definition dec_vec {A} (elem_size : Z) (d : dec A) : dec (list A) := fun bs =>
   let* '(len, r) := dec_i32 bs in
   if len <=? 0 then Ok ([], r)
-  else if alloc_limit <=? len * elem_size then alloc_panic
   else dec_many d (S (length r)) len r.
 
 (* impl FromByte for Vec<u8> *)
 Definition dec_bytes : dec bytes := fun bs =>
   let* '(len, r) := dec_i32 bs in
   if len <=? 0 then Ok ([], r)
-  else if alloc_limit <=? len then alloc_panic
   else
     if ulen r <? len then Err EUnexpectedEOF
     else let n := Z.to_nat len in Ok (firstn n r, skipn n r).
